@@ -58,8 +58,9 @@ class Dfx:
         return None
 
     def local_expr(self, local, depth=0):
-        if 1 <= local <= self.b.arg_count and not self.whole_defs(local):
-            return ("param", local)
+        if 1 <= local <= self.b.arg_count:
+            # a parameter that is assigned again has two definitions (the caller's value and the new one): a variable
+            return ("param", local) if not self.whole_defs(local) else ("var", local)
         if local in self._memo:
             return self._memo[local]
         d = self.single_def(local)
